@@ -493,9 +493,9 @@ func (h *harness) judgeHist(vh *vhist, job jobJ, results map[string]evJ, ops []e
 					}
 					w := witness{Config: cfgName, Values: job.Values, Batches: batches, Steps: job.Steps[:i+1], Step: i + 1, Query: queryText[q], Mode: mode,
 						Legs: r.Trace, Seq: seq.Rows, Vec: r.Rows, Err: r.Err, Tags: ap.Taint}
-					what := fmt.Sprintf("`%s` at parallelism 2 with vector copies of all objects returns %v, the sequential runtime %v (config %s, after %s, objects per leg %v)", queryText[q], clip(realC), clip(seqC), cfgName, prefix(vh, i), r.Trace)
+					what := fmt.Sprintf("`%s` at parallelism 2 (legs on the vector runtime: %v) returns %v, the sequential runtime %v (config %s, after %s, objects per leg %v)", queryText[q], r.Vec, clip(realC), clip(seqC), cfgName, prefix(vh, i), r.Trace)
 					if r.Err != "" {
-						what = fmt.Sprintf("`%s` at parallelism 2 with vector copies of all objects fails: %s; the sequential runtime returns %v (config %s, after %s)", queryText[q], r.Err, clip(seqC), cfgName, prefix(vh, i))
+						what = fmt.Sprintf("`%s` at parallelism 2 (legs on the vector runtime: %v) fails: %s; the sequential runtime returns %v (config %s, after %s)", queryText[q], r.Vec, r.Err, clip(seqC), cfgName, prefix(vh, i))
 					}
 					c.Violate(sig, what, w)
 				} else if r.Vec {
